@@ -9,11 +9,19 @@
 (*   manifest  [name, version, package, modules]; modules maps a component *)
 (*             to how its module is referenced: 0 = not listed (the        *)
 (*             conventional module <package>.<component>), 1 = a name      *)
-(*             relative to the package, 2 = an absolute name inside it     *)
-(*   module    [pkg, c, w]  (python package, component, which reference)   *)
+(*             relative to the package, 2 = an absolute name inside it,    *)
+(*             3 = a name relative to the package whose TEXT begins with   *)
+(*             the package's top-level name without being qualified by it  *)
+(*             (module "app_pipeline" of the package "app"): names are     *)
+(*             qualified segment-wise, not character-wise                  *)
+(*   module    [pkg, c, w]  (python package, component, which reference);  *)
+(*             pkg = Top: a top-level module of the distribution           *)
 (*   tree      [mods, data, rev]: module files present (each defines the   *)
 (*             component marked <<module, rev>>), a non-python data file   *)
-(*             (makes a zip package non zip-safe), revision of the content *)
+(*             (makes a zip package non zip-safe), revision of the content.*)
+(*             Next to the project package the tree ships top-level        *)
+(*             modules carrying the very names the map uses relatively     *)
+(*             (DECOYS: a relative name never denotes a top-level module)  *)
 (* Requirement: a manifest reads back equal from wherever it was written   *)
 (* (source directory, zip package, directory package, installed path);     *)
 (* the components loaded from the installed artifact are exactly the ones  *)
@@ -23,7 +31,7 @@
 EXTENDS Integers, Sequences, FiniteSets, TLC, Json
 CONSTANTS NNames, NVersions,   \* project names / release versions (rendered by the harness)
           Pkgs,                \* python packages: 1 = one level ("app"), 2 = two levels ("app.sub")
-          Refs,                \* subset of 0..2: module reference styles in use
+          Refs,                \* subset of 0..3: module reference styles in use
           Trees,               \* subset of {"all", "noeval"}
           Datas,               \* subset of BOOLEAN
           Priors               \* subset of {"none", "older", "olderzip", "same"}: what sits at the install path beforehand
@@ -43,8 +51,11 @@ Maps == [Comps -> Refs]
 NoManifest == [name |-> 0, version |-> 0, package |-> 0, modules |-> [c \in Comps |-> 0]]
 Manifests == [name : 1..NNames, version : 1..NVersions, package : Pkgs, modules : Maps]
 Module(p, c, w) == [pkg |-> p, c |-> c, w |-> w]
-AllModules(p) == {Module(p, c, w) : c \in Comps, w \in 0..2}
-TreeOf(p, t, d, rev) == [mods |-> IF t = "all" THEN AllModules(p) ELSE {m \in AllModules(p) : m.c # "evaluation"},
+Top == 0 - 2                                      \* "package" of the top-level modules
+Relative == {0, 1, 3}                             \* reference styles naming the module relatively to the package
+AllModules(p) == {Module(p, c, w) : c \in Comps, w \in 0..3}
+Decoys == {Module(Top, c, w) : c \in Comps, w \in Relative}      \* top-level namesakes of every relative name
+TreeOf(p, t, d, rev) == [mods |-> (IF t = "all" THEN AllModules(p) ELSE {m \in AllModules(p) : m.c # "evaluation"}) \cup Decoys,
                          data |-> d, rev |-> rev]
 NoTree == [mods |-> {}, data |-> FALSE, rev |-> 0]
 NoPkg == [kind |-> "none", manifest |-> NoManifest, tree |-> NoTree]
@@ -53,7 +64,9 @@ NoArt == [package |-> 0, modules |-> [c \in Comps |-> 0]]
 Missing == [pkg |-> 0, c |-> "", w |-> 0, rev |-> 0]
 NotLoaded == [c \in Comps |-> [pkg |-> 0 - 1, c |-> "", w |-> 0, rev |-> 0]]
 
-\* the resolution rule: a listed module replaces the conventional one; names not starting with the package are relative
+\* the resolution rule: a listed module replaces the conventional one; a name that is not qualified by the package (its
+\* leading SEGMENTS are not the package's) is relative to it - whatever characters it begins with and whatever top-level
+\* module of the same name exists; in every style the component is a module OF THE PACKAGE
 Resolve(package, modules, c) == Module(package, c, modules[c])
 LoadFrom(tree, package, modules) ==
     [c \in Comps |-> LET m == Resolve(package, modules, c) IN
@@ -107,6 +120,7 @@ ManifestReadBack == \A s \in seen : s.manifest = given                   \* read
 InstalledIsPackaged == art # NoArt => inst.manifest = given /\ inst.tree = src.tree
 SameComponents == comps # NotLoaded => comps = LoadFrom(src.tree, given.package, given.modules)
 SourceAndPipelinePresent == comps # NotLoaded => comps["source"] # Missing /\ comps["pipeline"] # Missing
+NeverTopLevel == comps # NotLoaded => \A c \in Comps : comps[c] = Missing \/ comps[c].pkg = given.package
 EvaluationOptional == comps # NotLoaded => (comps["evaluation"] = Missing <=> Resolve(given.package, given.modules, "evaluation") \notin src.tree.mods)
 
 \* export: one vector per finished behaviour
